@@ -1079,6 +1079,17 @@ func (t *Transaction) Catalog() *Catalog {
 	return t.catalog
 }
 
+// reset will set the transaction back to a catalog it had before. As catalogs
+// are never modified in place this undoes every change made since.
+func (t *Transaction) reset(catalog *Catalog, dirty bool) {
+	// acquire write lock
+	t.mutex.Lock()
+	defer t.mutex.Unlock()
+
+	t.catalog = catalog
+	t.dirty = dirty
+}
+
 // Clean will clean the oplog and only keep up to the specified amount of events
 // and delete events that are older than the specified age.
 func (t *Transaction) Clean(minSize, maxSize int, minAge, maxAge time.Duration) {
